@@ -114,6 +114,9 @@ structure DState where
   inflight : Option (String Ã— Nat Ã— Nat) := none
   /-- Updates begun while it was parked (they wait for the index lock), in order. -/
   waiting  : List (String Ã— Nat) := []
+  /-- Unlinks of a delete goroutine that finishes inside an `end` line (counted before the updates that
+      run afterwards can link the same keys again). -/
+  uCarry   : Nat := 0
 
 def showRes (keys : List Key) (r : Res) (withPush : Bool) : String :=
   (if withPush then r.push.tok else "-") ++ " clears=" ++ showClears keys r.clears ++ " all=" ++
@@ -278,8 +281,9 @@ def stepSched (d : DState) (toks : List String) : DState Ã— String :=
                 hist := d.hist ++ [{ id := i, op := op, start := d.line }],
                 waiting := d.waiting ++ [(name, i)] }, "blocked")
   | some (_, i, _), ["end"] =>
+    let n := unlinks d.keys before (advance d.fixed d.cfg i).heap
     let d := (finishDelete d i).1
-    stepSchedFree d before toks
+    stepSchedFree { d with uCarry := n } d.cfg.heap toks
   | some _, _ => (d, "bad-op")
   | none, _ => stepSchedFree d before toks
 where stepSchedFree (d : DState) (before : Heap) (toks : List String) : DState Ã— String :=
@@ -308,8 +312,8 @@ where stepSchedFree (d : DState) (before : Heap) (toks : List String) : DState Ã
     let d := forceFinish d (6 * n + 6) (List.range n)
     let target := showIndex d.keys d.cfg.heap.index
     let lin := linSearch d.keys target d.hist.length d.hist Index.empty
-    (d, "lin=" ++ boolTok lin ++ " lost=" ++ toString d.lost ++ " u=" ++ toString (unlinks d.keys before d.cfg.heap) ++
-        " | " ++ target)
+    (d, "lin=" ++ boolTok lin ++ " lost=" ++ toString d.lost ++ " u=" ++
+        toString (d.uCarry + unlinks d.keys before d.cfg.heap) ++ " | " ++ target)
   | _ =>
     match decOp toks with
     | none => (d, "bad-op")
